@@ -166,8 +166,7 @@ def pc(it, x, syms):
     return Lin.of(NAT[head]) + net
 
 
-def rule_helper(ctx, mod):
-    R = "R-C02-2"
+def rule_helper(ctx, mod, R="R-C02-2"):
     fi = mod.func(HELPER)
     ctx.touch(fi)
     params = fi.params
